@@ -1426,9 +1426,11 @@ def replace_map_table_rule(m, rid):
     class ParenString(str):
         pass
 
-    class SRD(dict):
-        def __call__(self, line):
-            return ev.run_function(callf.node, [self, line])
+    from sa import pureeval as _PE
+    SRD = _PE.host_subclass(ev, m.classdef(k), dict, "SRD") if m.classdef(k) is not None else None
+    if SRD is None:
+        r.error("StringReplaceDict: the class body was not found")
+        return r
     ev.g.update({"String": String, "ParenString": ParenString, "StringReplaceDict": SRD})
     for line in REPLACE_MAP_ROWS:
         r.instances += 1
